@@ -50,7 +50,7 @@ fn paren(s: &str, atom: bool) -> String {
 /// fully parenthesised operator nestings: the source fixes the tree, the printer decides which
 /// parentheses to keep
 fn operator_nestings(thorough: bool) -> Vec<Case> {
-    let atoms: Vec<&str> = if thorough { vec!["2", "0.1", "x2", "m", "s", "3"] } else { vec!["2", "0.1", "x2", "m", "s"] };
+    let atoms: Vec<&str> = if thorough { vec!["2", "0.1", "x2", "m", "s", "3"] } else { vec!["2", "0.1", "x2", "m"] };
     let bin = ["+", "-", "*", "/", "^", "per", "->", " "];
     #[derive(Clone)]
     struct T {
@@ -1005,7 +1005,7 @@ pub fn check(rep: &mut Report) {
     }
     rep.set("statements", json!(n));
     rep.set("per_family_generated_and_round_tripped", json!(per_family.iter().map(|(k, v)| (k.to_string(), json!([v.0, v.1]))).collect::<serde_json::Map<_, _>>()));
-    rep.rule = "statements enumerated per family: fully parenthesised operator nestings of depth <= 2 over {2, 0.1, x2, m, s} x {+ - * / ^ per -> juxtaposition, unary -, !, ², call} (thorough: + every depth-3 chain), boolean/comparison nestings, conditionals in every operand position and as receiver of field access / call / conversion, type and dimension expressions of depth <= 2 with exponents {2,3,-1,1/3,-2/3,2/3,12,15,0} in every annotation position, inferred signatures with exponent denominators up to 15, where clauses, every decorator form x unit form, strings over an escape/interpolation/format-specifier alphabet (all pairs), temperature sugar in every operand position, date arithmetic, number spellings, procedure calls, the C02 program space and the C09 expression space; non-trivial = accepted statements whose echo was re-interpreted and compared (type, bit-exact value, printed output, second echo, probes of the defined names)".into();
+    rep.rule = "statements enumerated per family: fully parenthesised operator nestings of depth <= 2 over {2, 0.1, x2, m} (thorough: + s, 3) x {+ - * / ^ per -> juxtaposition, unary -, !, ², call} (thorough: + every depth-3 chain), boolean/comparison nestings, conditionals in every operand position and as receiver of field access / call / conversion, type and dimension expressions of depth <= 2 with exponents {2,3,-1,1/3,-2/3,2/3,12,15,0} in every annotation position, inferred signatures with exponent denominators up to 15, where clauses, every decorator form x unit form, strings over an escape/interpolation/format-specifier alphabet (all pairs), temperature sugar in every operand position, date arithmetic, number spellings, procedure calls, the C02 program space and the C09 expression space; non-trivial = accepted statements whose echo was re-interpreted and compared (type, bit-exact value, printed output, second echo, probes of the defined names)".into();
     rep.assumptions = vec![
         "the echo is the plain text of Statement::pretty_print as returned by Context::interpret_with_settings; input and echo are interpreted in two clones of the same pre-state".into(),
         "number literals are restricted to values that print exactly in 6 significant digits (the property's proviso); values are compared bit-exactly".into(),
